@@ -12,3 +12,15 @@ for f in sorted(glob.glob('/verif/seeded/*/meta.json')):
     title = m["title"].replace("|", "\\|")
     needs = (m.get("needs_to_manifest") or "")[:220].replace("|", "\\|").replace("\n", " ")
     print(f"| {m['id']} | {m['breaks_property']} | {title}. Needs: {needs} | {okshort} | {caught} |")
+
+print()
+print("Own catalogue (appendix D), materialised as patches under `seeded_own/` — **not independent** of the checks; M15 and M18 are behaviour-preserving negative controls and must stay silent:")
+print()
+print("| id | edit | suite with the edit | checks run → result |")
+print("|---|---|---|---|")
+for f in sorted(glob.glob('/verif/seeded_own/*/info.json'), key=lambda x: int(os.path.basename(os.path.dirname(x))[1:])):
+    m = json.load(open(f))
+    res = m.get("checks_run_against_it", {})
+    caught = ", ".join(f"{k}: {'VIOLATION' if v['exit']==1 else ('silent' if v['exit']==0 else 'exit '+str(v['exit']))}" for k, v in sorted(res.items())) or "not run yet"
+    edit = (m.get("catalogue_entry", {}).get("file", "") + ": " + m.get("catalogue_entry", {}).get("edit", "")).replace("|", "\\|")[:230]
+    print(f"| {m['id']} | {edit} | {m.get('suite_passed')} passed / {m.get('suite_failed')} failed | {caught} |")
